@@ -64,7 +64,14 @@ def main():
         res["demo_patched_tail"] = out[-600:]
         t0 = time.time()
         env = dict(ENV, VERIF_REPO=wt)
-        rc, out = sh("./check %s %s" % (prop, tier), cwd=VERIF, env=env, timeout=7200)
+        # the evidence file must keep describing the run on the real tree: save and restore it
+        evp = os.path.join(VERIF, "evidence", prop + ".json")
+        saved = open(evp).read() if os.path.exists(evp) else None
+        try:
+            rc, out = sh("./check %s %s" % (prop, tier), cwd=VERIF, env=env, timeout=7200)
+        finally:
+            if saved is not None:
+                open(evp, "w").write(saved)
         res["check_rc"] = rc
         res["check_wall_s"] = round(time.time() - t0, 1)
         lines = out.splitlines()
